@@ -25,6 +25,31 @@ fn read_outcome(bytes: &[u8]) -> u8 {
     }
 }
 
+/// A reader that hands out at most `chunk` bytes per call (short reads), as a pipe or a network
+/// stream may do.
+struct ChunkReader<'a> {
+    data: &'a [u8],
+    pos: usize,
+    chunk: usize,
+}
+
+impl std::io::Read for ChunkReader<'_> {
+    fn read(&mut self, buf: &mut [u8]) -> std::io::Result<usize> {
+        let n = self.chunk.min(buf.len()).min(self.data.len() - self.pos);
+        buf[..n].copy_from_slice(&self.data[self.pos..self.pos + n]);
+        self.pos += n;
+        Ok(n)
+    }
+}
+
+fn read_outcome_chunked(bytes: &[u8], chunk: usize) -> u8 {
+    match catch_unwind(AssertUnwindSafe(|| Dictionary::read(ChunkReader { data: bytes, pos: 0, chunk }).is_ok())) {
+        Ok(false) => 0,
+        Ok(true) => 1,
+        Err(_) => 2,
+    }
+}
+
 fn gen_image(rng: &mut Rng, kind: u8) -> (ADict, Vec<u8>, Value) {
     let cfg = GenCfg { conn_kind: kind, ..Default::default() };
     loop {
@@ -55,7 +80,9 @@ pub fn truncate(a: &HashMap<String, String>) -> i32 {
         let kind = (i % 3) as u8;
         let (_d, bytes, info) = gen_image(&mut rng, kind);
         let len = bytes.len();
-        writeln!(f, "{}", json!({"ev": "image", "info": info, "len": len, "full_ok": read_outcome(&bytes) == 1})).unwrap();
+        // the complete image loads whatever the granularity of the reader
+        let full_ok = read_outcome(&bytes) == 1 && [3usize, 7, 4096].iter().all(|&c| read_outcome_chunked(&bytes, c) == 1);
+        writeln!(f, "{}", json!({"ev": "image", "info": info, "len": len, "full_ok": full_ok})).unwrap();
         // offsets to try
         let mut offs: Vec<usize> = if full {
             (0..len).collect()
@@ -77,7 +104,11 @@ pub fn truncate(a: &HashMap<String, String>) -> i32 {
                                       "first_bad": fb.map(|x| x as i64).unwrap_or(-1), "len": len})).unwrap();
         };
         for (j, &k) in offs.iter().enumerate() {
-            let o = read_outcome(&bytes[..k]);
+            let mut o = read_outcome(&bytes[..k]);
+            if o == 0 && j % 41 == 0 {
+                // the same prefix through a reader that delivers short reads
+                o = read_outcome_chunked(&bytes[..k], 5 + j % 7);
+            }
             cnt[o as usize] += 1;
             if o != 0 && first_bad.is_none() {
                 first_bad = Some(k);
